@@ -568,9 +568,9 @@ KINDS = {
     "counters": dict(props=["C15"], enc=enc_counters, spec=spec_counters, exact=True),
     "sha256": dict(props=["C07"], enc=enc_sha, spec=spec_sha, exact=False),
     "pkt_commit1": dict(props=["C07"], enc=enc_pkt1, spec=spec_pkt1, exact=True),
-    "ack_commit1": dict(props=["C07"], enc=enc_ack1, spec=spec_ack1, exact=True),
+    "ack_commit1": dict(props=["C07", "C06"], enc=enc_ack1, spec=spec_ack1, exact=True),
     "pkt_commit2": dict(props=["C07"], enc=enc_pkt2, spec=spec_pkt2, exact=True),
-    "ack_commit2": dict(props=["C07"], enc=enc_ack2, spec=spec_ack2, exact=True),
+    "ack_commit2": dict(props=["C07", "C06"], enc=enc_ack2, spec=spec_ack2, exact=True),
     "router2": dict(props=["C48"], enc=enc_router2, spec=spec_router2, exact=True,
                     nontrivial=lambda r: any(r["out"][0]) and not all(r["out"][0])),
     "router1": dict(props=["C48"], enc=enc_router1, spec=spec_router1, exact=False),
